@@ -662,6 +662,40 @@ static carquet_status_t read_page_header_fread(
 }
 
 /* ============================================================================
+ * Helper: plausibility of the sizes a page header announces
+ * ============================================================================
+ *
+ * Sizes and counts in a page header come from the file. They are checked
+ * before a buffer is sized from them or a byte of the body is touched:
+ * none may be negative, and the body must lie inside the file
+ * (body_offset is the file offset of the first body byte).
+ */
+static carquet_status_t check_page_sizes(
+    const carquet_reader_t* file_reader,
+    const parquet_page_header_t* page_header,
+    int64_t body_offset,
+    carquet_error_t* error) {
+
+    if (page_header->compressed_page_size < 0 || page_header->uncompressed_page_size < 0) {
+        CARQUET_SET_ERROR(error, CARQUET_ERROR_INVALID_PAGE, "Negative page size");
+        return CARQUET_ERROR_INVALID_PAGE;
+    }
+    if (file_reader->file_size > 0 &&
+        (body_offset < 0 || (uint64_t)body_offset > (uint64_t)file_reader->file_size ||
+         (uint64_t)page_header->compressed_page_size >
+             (uint64_t)file_reader->file_size - (uint64_t)body_offset)) {
+        CARQUET_SET_ERROR(error, CARQUET_ERROR_INVALID_PAGE, "Page body extends past the end of the file");
+        return CARQUET_ERROR_INVALID_PAGE;
+    }
+    if (page_header->type == CARQUET_PAGE_DATA &&
+        page_header->data_page_header.num_values < 0) {
+        CARQUET_SET_ERROR(error, CARQUET_ERROR_INVALID_PAGE, "Negative value count in page header");
+        return CARQUET_ERROR_INVALID_PAGE;
+    }
+    return CARQUET_OK;
+}
+
+/* ============================================================================
  * Helper: Load dictionary page (mmap path)
  * ============================================================================
  */
@@ -695,6 +729,11 @@ static carquet_status_t load_dictionary_page_mmap(
     if (page_header.type != CARQUET_PAGE_DICTIONARY) {
         CARQUET_SET_ERROR(error, CARQUET_ERROR_INVALID_PAGE, "Expected dictionary page");
         return CARQUET_ERROR_INVALID_PAGE;
+    }
+
+    status = check_page_sizes(file_reader, &page_header, dict_offset + (int64_t)header_size, error);
+    if (status != CARQUET_OK) {
+        return status;
     }
 
     /* Get pointer to compressed data */
@@ -785,6 +824,11 @@ static carquet_status_t load_dictionary_page_fread(
     if (page_header.type != CARQUET_PAGE_DICTIONARY) {
         CARQUET_SET_ERROR(error, CARQUET_ERROR_INVALID_PAGE, "Expected dictionary page");
         return CARQUET_ERROR_INVALID_PAGE;
+    }
+
+    status = check_page_sizes(file_reader, &page_header, dict_offset + (int64_t)header_size, error);
+    if (status != CARQUET_OK) {
+        return status;
     }
 
     /* Allocate and read compressed data (behind the header) */
@@ -949,6 +993,11 @@ static carquet_status_t load_next_page_mmap(
         return CARQUET_ERROR_INVALID_PAGE;
     }
 
+    status = check_page_sizes(file_reader, &page_header, page_offset + (int64_t)header_size, error);
+    if (status != CARQUET_OK) {
+        return status;
+    }
+
     /* Get pointer to page data in mmap */
     const uint8_t* page_data_ptr = header_ptr + header_size;
 
@@ -979,6 +1028,14 @@ static carquet_status_t load_next_page_mmap(
 
     if (zero_copy_eligible && !has_levels) {
         /* ====== ZERO-COPY PATH ====== */
+
+        /* The values are handed out in place: all of them must lie inside
+         * the page body */
+        if (value_size == 0 ||
+            (size_t)num_values > (size_t)page_header.compressed_page_size / value_size) {
+            CARQUET_SET_ERROR(error, CARQUET_ERROR_INVALID_PAGE, "Page too small for its value count");
+            return CARQUET_ERROR_INVALID_PAGE;
+        }
 
         /* Free previous owned buffer if any */
         if (reader->decoded_ownership == CARQUET_DATA_OWNED) {
@@ -1177,6 +1234,12 @@ static carquet_status_t load_next_page_fread(
     if (page_header.type != CARQUET_PAGE_DATA) {
         CARQUET_SET_ERROR(error, CARQUET_ERROR_INVALID_PAGE, "Expected data page");
         return CARQUET_ERROR_INVALID_PAGE;
+    }
+
+    status = check_page_sizes(file_reader, &page_header,
+                              data_offset + reader->current_page + (int64_t)header_size, error);
+    if (status != CARQUET_OK) {
+        return status;
     }
 
     /* Allocate and read compressed data (behind the header) */
